@@ -33,16 +33,23 @@ def is_param(t, idx=None):
     return isinstance(t, Tm) and t.k == "param" and (idx is None or t.a[0] == idx)
 
 
+EVAL = [None]
+
+
 def ok_payload(t):
-    """payload of Result::Ok{0: x}"""
+    """payload of the Ok value a function returns: Result::Ok{0: x} -> x ; `r.map(f)` as the returned value is
+    `Ok(f(r?))`, so its payload is f applied to `r?`"""
     if t.k == "adt" and t.a[0] == "core::result::Result" and t.a[1] == "Ok":
         return t.a[2][0][1]
+    if t.k == "call" and t.a[0] == "core::result::Result::<T, E>::map" and len(t.a) == 3 and t.a[2].k in ("closure", "fnitem") and EVAL[0] is not None:
+        return EVAL[0].apply(t.a[2], [Tm("try", (t.a[1],))])
     return None
 
 
 def run(ctx, rep):
     prog = ctx.prog
     ev = Evaluator(prog)
+    EVAL[0] = ev
     r1(prog, ev, rep)
     r2(ctx, prog, rep)
     r3(prog, rep)
